@@ -12,6 +12,7 @@ pub mod binary {
     use super::Bytes;
 //@items protocol/binary.rs | * *
 }
+//@consts protocol/binary_codec.rs | -
 //@items protocol/binary_codec.rs | enum BinaryResponse, struct ResponseMessage, enum RequestParserState, struct MemcacheBinaryCodec
 
 pub open spec fn resp_header(r: BinaryResponse) -> binary::ResponseHeader {
